@@ -230,3 +230,81 @@ def module_region(prog, p, stop=None):
                 work.append(n)
     return sorted(bodies)
 
+
+def cell_extend_sites(prog, cf):
+    """The iterator form of the per-character cell insertion of From<StringBuffer> for CellBuffer:
+    `map.extend(row.chars().enumerate().filter(P).map(M))`.  Returns a list of dicts
+    {term, chars_src, col, row, ch, filter_atoms} where col/row/ch are the expressions of M's result
+    ((Cell::new(col, row), ch)) in terms of the enumerate item (('param', 2, ..) of M) and M's captures substituted,
+    and filter_atoms is the set of atoms P requires: 'ws' (!is_whitespace(ch)), 'nul' (ch != NUL), or ('other', text)."""
+    import re as _re
+    from .mirlib import Expr as _E, Program as _P, paths as _paths, expr_str as _es
+    from .exprs import strip as _s, closure_of as _co, subst_closure as _sc, is_const as _ic
+    out = []
+    ex = _E(prog, cf)
+    for bid, t in prog.calls(cf):
+        if not _re.search(r"Extend<.*>>::extend$|BTreeMap::<K, V, A>::extend$", _P.callee_name(t)) or len(t["args"]) != 2:
+            continue
+        it = _s(ex.operand(t["args"][1]))
+        if not (it[0] == "call" and _re.search(r"Iterator::map$", it[1]) and len(it[2]) == 2):
+            continue
+        mcl, mcaps = _co(_s(it[2][1]))
+        src = _s(it[2][0])
+        filt = None
+        if src[0] == "call" and _re.search(r"Iterator::filter$", src[1]) and len(src[2]) == 2:
+            filt, fcaps = _co(_s(src[2][1]))
+            src = _s(src[2][0])
+        if not (src[0] == "call" and _re.search(r"Iterator::enumerate$", src[1])):
+            continue
+        chars = _s(src[2][0])
+        if not (chars[0] == "call" and chars[1].endswith("str::<impl str>::chars")):
+            continue
+        if mcl not in prog.bodies:
+            continue
+        rets = [_s(r) for r in _E(prog, mcl).returns()]
+        if len(rets) != 1 or rets[0][0] != "agg" or len(rets[0][3]) != 2:
+            continue
+        cell, ch = _s(rets[0][3][0][1]), _s(rets[0][3][1][1])
+        if not (cell[0] == "call" and cell[1].endswith("cell::Cell::new") and len(cell[2]) == 2):
+            continue
+        col = _sc(cell[2][0], mcaps)
+        row = _sc(cell[2][1], mcaps)
+        atoms = set()
+        if filt and filt in prog.bodies:
+            ps = _paths(prog, filt)
+            if ps is None:
+                atoms.add(("other", "filter not loop-free"))
+            else:
+                # atoms required on every path that returns true
+                per_path = []
+                for conds, ret in ps:
+                    r = _s(ret)
+                    if r[0] == "const" and str(r[2]) in ("0", "False", "false"):
+                        continue
+                    req = set()
+                    for c, tk in conds:
+                        c = _s(c)
+                        if c[0] == "call" and c[1].endswith("is_whitespace") and tk == 0:
+                            req.add("ws")
+                        elif c[0] == "bin" and c[1] == "Ne" and _ic(c[3], 0) and tk != 0:
+                            req.add("nul")
+                        elif c[0] == "bin" and c[1] == "Eq" and _ic(c[3], 0) and tk == 0:
+                            req.add("nul")
+                        else:
+                            req.add(("other", _es(c)[:50]))
+                    if r[0] != "const":
+                        # the last conjunct is returned as a value
+                        if r[0] == "un" and r[1] == "Not" and _s(r[2])[0] == "call" and _s(r[2])[1].endswith("is_whitespace"):
+                            req.add("ws")
+                        elif r[0] == "bin" and r[1] == "Ne" and _ic(r[3], 0):
+                            req.add("nul")
+                        else:
+                            req.add(("other", _es(r)[:50]))
+                    per_path.append(frozenset(req))
+                if per_path and all(x == per_path[0] for x in per_path):
+                    atoms = set(per_path[0])
+                elif per_path:
+                    atoms = {("other", "the paths of the filter require different things")}
+        out.append({"term": t, "bid": bid, "chars_src": chars[2][0], "col": col, "row": row, "ch": ch, "filter_atoms": atoms, "has_filter": bool(filt)})
+    return out
+
